@@ -246,7 +246,18 @@ def run(prog: Program, rep: Report, tier: str):
         if isinstance(rv, ast.Tuple) and len(rv.elts) == 2:
             if isinstance(rv.elts[1], ast.Name):
                 lv = rv.elts[1].id
-                reach = cfg.reaching().get(n, {}).get(lv, set())
+                # in-place operator updates (cls *= L; cls += P) keep the object: look through them to where it was created
+                reach, work, seen_d = set(), list(cfg.reaching().get(n, {}).get(lv, set())), set()
+                while work:
+                    d_ = work.pop()
+                    if d_ in seen_d:
+                        continue
+                    seen_d.add(d_)
+                    st_ = cfg.nodes[d_].ast if cfg.nodes[d_].kind == "stmt" else None
+                    if isinstance(st_, ast.AugAssign):
+                        work += list(cfg.reaching().get(d_, {}).get(lv, set()))
+                    else:
+                        reach.add(d_)
                 cands = [(cfg.def_value(d, lv), d) for d in reach]
             else:
                 cands = [(rv.elts[1], n)]  # the encoded label is built in the return expression itself
